@@ -24,7 +24,7 @@ structure Inv (w : Words) (s : St) : Prop where
   user : s.user = true
   nexp : 0 < s.nexp
   n0 : 0 ≤ s.n
-  hdr0 : 0 ≤ s.hdrEnd - 5 * ((s.n + 1) * w.iw)
+  hdr0 : 0 ≤ s.hdrEnd - (2 * ((s.n + 1) * w.iw) + 3 * ((s.n + 1) * w.liw))
   capL0 : 0 ≤ s.capL
   capU0 : 0 ≤ s.capU
   capS0 : 0 ≤ s.capS
@@ -376,6 +376,7 @@ theorem inv_confined (w : Words) (hw : w.Ok) (s : St) (hinv : Inv w s) :
   have e3 : 0 ≤ s.capS * w.liw := Int.mul_nonneg hS0 (by omega)
   have e4 : 0 ≤ s.capB * w.liw := Int.mul_nonneg hB0 (by omega)
   have e5 : s.capB * w.liw ≤ s.capU * w.liw := Int.mul_le_mul_of_nonneg_right hBU (by omega)
+  have ehl : 0 ≤ (s.n + 1) * w.liw := Int.mul_nonneg (by omega) (by omega)
   simp only [St.blocks, hw.iw]
   generalize s.capL * w.dw = bL at *
   generalize s.capU * w.dw = bU at *
